@@ -244,6 +244,12 @@ def printable_circuit(g: G.Gen, passes=True):
     for _ in range(rng.randint(0, 4)):
         q = rng.randrange(min(c["nq"], 4))
         c["stmts"].insert(rng.randrange(len(c["stmts"]) + 1), W.w_stmt(getattr(dg, rng.choice(["Rx", "Ry", "Rz"]))(q, Float(g.param()))))
+    for _ in range(rng.randint(0, 2)):
+        rots = [i for i, s_ in enumerate(c["stmts"]) if s_["k"] == "gate" and s_["nm"] and s_["nm"]["name"] in ("Rx", "Ry", "Rz")]
+        if not rots: break
+        i = rng.choice(rots); q = c["stmts"][i]["g"]["q"]
+        idg = rng.choice([lambda: dg.I(q), lambda: dg.Rz(q, Float(0.0)), lambda: dg.Rx(q, Float(2 * math.pi)), lambda: dg.Ry(q, Float(0.0))])()
+        c["stmts"].insert(i + rng.choice([0, 1]), W.w_stmt(idg))
     if c["nq"] >= 2:
         for _ in range(rng.randint(0, 2)):
             a, b = rng.sample(range(min(c["nq"], 4)), 2)
@@ -253,9 +259,9 @@ def printable_circuit(g: G.Gen, passes=True):
 def through_passes(g: G.Gen, c):
     """the circuit after a random pass that keeps it printable, or None"""
     rng = g.rng
-    k = rng.randrange(4)
+    k = rng.randrange(6)
     if k == 0: r = O.impl_decompose(rng.choice(O.DECOMPOSERS), c)
-    elif k == 1: r = O.impl_merge(c)
+    elif k in (1, 4, 5): r = O.impl_merge(c)
     elif k == 2:
         p = list(range(c["nq"])); rng.shuffle(p); r = O.impl_map(p, c)
     else:
@@ -274,6 +280,21 @@ def same_8_digits(text, value):
     except ValueError: return False
     if value == 0: return v == 0
     return abs(v - value) <= abs(value) * 0.5000001e-7 * 10 ** 0 * 10 if False else abs(v - value) <= 5.0000001 * 10 ** (math.floor(math.log10(abs(value))) - 8)
+
+def rotation_identity_cases():
+    """a parametrised rotation directly next to an identity-like named gate on the same qubit, after merging"""
+    import opensquirrel.default_gates as dg
+    from opensquirrel.ir import Float
+    out = []
+    for name, th in [("Rx", 1.2), ("Ry", -0.7), ("Rz", 0.3)]:
+        for mk in (lambda q: dg.I(q), lambda q: dg.Rz(q, Float(0.0)), lambda q: dg.Rx(q, Float(2 * math.pi)), lambda q: dg.Ry(q, Float(0.0))):
+            for order in (0, 1):
+                pair = [W.w_stmt(getattr(dg, name)(1, Float(th))), W.w_stmt(mk(1))]
+                if order: pair.reverse()
+                for tail in ([], [W.w_stmt(dg.CNOT(1, 0))]):
+                    r = O.impl_merge({"nq": 2, "nb": 0, "stmts": pair + tail})
+                    if r["err"] is None: out.append(r["c"])
+    return out
 
 def check_C04(run: Run):
     rng = random.Random(run.seed * 13 + 17); g = G.Gen(rng)
@@ -303,7 +324,7 @@ def check_C04(run: Run):
         if not float_text_ok(t): run.violation(f"float {x!r} is written as {t!r}, which is not a cQASM float literal", {"x": x})
         elif not same_8_digits(t, x): run.violation(f"float {x!r} is written as {t!r}: not the value to 8 significant digits", {"x": x})
     # --- circuits: write, parse back
-    cases = []
+    cases = [{"c": c} for c in rotation_identity_cases() if all(s_["k"] != "gate" or s_["nm"] for s_ in c["stmts"])]
     for _ in range(run.n(120, 2500)):
         g.band = False
         c = printable_circuit(g)
@@ -401,13 +422,37 @@ def read_v1(text):
         if name == "prep_z": out.append(("reset", qs[0])); continue
         if name not in V1_MEANING: return None, f"unknown name {name}"
         f = getattr(dg, V1_MEANING[name])
-        args = list(qs) + [Float(float(p)) if name in ("rx", "ry", "rz", "cr") else int(p) for p in ps]
-        out.append(W.w_stmt(f(*args)))
+        try:
+            args = list(qs) + [Float(float(p)) if name in ("rx", "ry", "rz", "cr") else int(p) for p in ps]
+            out.append(W.w_stmt(f(*args)))
+        except Exception as ex:
+            return None, f"line {l!r} cannot be read with the cQASM 1 meaning of {name}: {type(ex).__name__}"
     return (nq, out), None
+
+def v1_line_qubits(text):
+    out = []
+    for l in text.split("\n")[1:]:
+        if not l.strip() or l.startswith(("qubits", "/*")): continue
+        out.append([int(t.strip()[2:-1]) for t in l.partition(" ")[2].split(",") if t.strip().startswith("q[")])
+    return out
 
 def check_C12(run: Run):
     rng = random.Random(run.seed * 19 + 23); g = G.Gen(rng)
-    cases = []
+    # the exported line names the qubits the statement actually acts on - also for statement objects occurring twice, after map
+    for _ in range(run.n(25, 300)):
+        n = rng.randint(2, 4); p = list(range(n)); rng.shuffle(p)
+        c0 = g.circuit(n=n, kinds="named", allow_band=False, length=rng.randint(2, 6))
+        circ = W.os_circuit(c0)
+        objs = list(circ.ir.statements)
+        circ.ir.statements[:] = objs + [rng.choice(objs) for _ in range(rng.randint(1, 3))]
+        r = O.impl_map(p, None, circ=circ)
+        e = O.impl_exportv1(None, circ=circ)
+        run.count({"shared-then-export": c0, "p": p}, tag="shared-object")
+        if r["err"] is not None or e["err"] is not None: run.violation(f"map/export of a circuit with a repeated statement object raised {r['err'] or e['err']}", {"c": c0, "p": p}); continue
+        sem = [R.stmt_qubits(s_) for s_ in r["c"]["stmts"] if s_["k"] != "comment"]
+        if v1_line_qubits(e["v"]) != sem:
+            run.violation("cQASM 1 lines name other qubits than the statements act on (repeated statement object, after map)", {"c": c0, "p": p, "text": e["v"]})
+    cases = [{"c": c} for c in rotation_identity_cases() if all(s_["k"] != "gate" or s_["nm"] for s_ in c["stmts"])]
     for _ in range(run.n(120, 2500)):
         c = printable_circuit(g)
         if rng.random() < 0.5:
@@ -616,7 +661,20 @@ def user_gate_family():
     @named_gate
     def iswapk(first: QubitLike, n: SupportsInt, second: QubitLike, w: Float, v: Float) -> MatrixGate:
         return MatrixGate(np.array([[1, 0, 0, 0], [0, 0, 1j, 0], [0, 1j, 0, 0], [0, 0, 0, 1]], complex), [first, second])
-    return {"swap": (swap, ["q", "q"]), "vx": (vx, ["q"]), "u3": (u3, ["f", "q", "i", "f"]), "cphase": (cphase, ["q", "f", "q"]),
+    @named_gate
+    def tcx(tgt: QubitLike, ctrl: QubitLike) -> ControlledGate:        # qubit parameters in another order than the operands
+        return ControlledGate(ctrl, BlochSphereRotation(tgt, (1, 0, 0), math.pi, math.pi / 2))
+    @named_gate
+    def rswap(a: QubitLike, b: QubitLike) -> MatrixGate:
+        return MatrixGate(np.array([[1, 0, 0, 0], [0, 0, 1j, 0], [0, 1j, 0, 0], [0, 0, 0, 1]], complex), [b, a])
+    @named_gate
+    def vx90(q: QubitLike) -> BlochSphereRotation:                      # coincides with the default gate X90
+        return BlochSphereRotation(q, (1, 0, 0), math.pi / 2, 0)
+    @named_gate
+    def zrot(theta: Float, q: QubitLike) -> BlochSphereRotation:
+        return BlochSphereRotation(q, (0, 0, 1), theta.value, 0)
+    fam_extra = {"tcx": (tcx, ["q", "q"]), "rswap": (rswap, ["q", "q"]), "vx90": (vx90, ["q"]), "zrot": (zrot, ["f", "q"])}
+    return {**fam_extra, "swap": (swap, ["q", "q"]), "vx": (vx, ["q"]), "u3": (u3, ["f", "q", "i", "f"]), "cphase": (cphase, ["q", "f", "q"]),
             "ccz": (ccz, ["q", "q", "q"]), "iswapk": (iswapk, ["q", "i", "q", "f", "f"])}
 
 def check_C20(run: Run):
@@ -644,7 +702,7 @@ def check_C20(run: Run):
                     if k == "q": v = next(qi); args.append(v); qtxt.append(f"q[{v}]")
                     elif k == "i": v = rng.choice([0, 1, 2, -3, 17]); args.append(v); ptxt.append(str(v))
                     else:
-                        v = g.param(); args.append(Float(v)); ptxt.append(None)
+                        v = rng.choice([math.pi / 2, math.pi / 4]) if name == "zrot" and rng.random() < 0.5 else g.param(); args.append(Float(v)); ptxt.append(None)
                 try:
                     getattr(b, name)(*args)
                 except Exception as ex:
@@ -721,6 +779,19 @@ def check_C20(run: Run):
         for s in before["stmts"]:
             if s["k"] == "gate" and not is_bsr_stmt(s) and not any(W.diff(s, t, 0.0) is None for t in after["stmts"]):
                 run.violation(f"merge altered user gate {s['nm']['name']}", {"c": before}); break
+        # a user single-qubit gate with nothing to fuse with keeps its name and arguments
+        from props_a import split_segments, per_qubit_trace, is_identity_gate
+        for q in range(n):
+            sa, sb = split_segments(per_qubit_trace(before["stmts"], q)), split_segments(per_qubit_trace(after["stmts"], q))
+            if len(sa) != len(sb): continue
+            for x, y in zip(sa, sb):
+                if len(x) == 1 and x[0]["nm"] and x[0]["nm"]["name"] in fam and not is_identity_gate(x[0]["g"], 3e-7):   # 3e-7: stay out of the identity band
+                    if len(y) != 1 or y[0]["nm"] is None or W.diff(y[0]["nm"], x[0]["nm"], 0.0):
+                        run.violation(f"merge renamed or stripped the user gate {x[0]['nm']['name']} although it had nothing to fuse with", {"c": before})
+        # name and arguments still denote the operation (user gates may list qubit parameters in any order)
+        for s in r["c"]["stmts"] if r["err"] is None else []:
+            ok_, why = coherent(s, lookup)
+            if not ok_: run.violation(f"after map, {s['nm']['name']}{s['nm']['args']} does not denote the operation it performs ({why})", {"c": before, "p": p}); break
         mm = O.parse_pass(M.run_batch([O.req_merge(before)])[0])
         d = cmp_pass({"band": False}, {"err": None, "c": after}, mm)
         if d: run.mismatch("merge of a user-gate circuit differs from the model: " + d, {"c": before})
@@ -773,6 +844,11 @@ def seed_circuits(g: G.Gen):
         {"nq": 4, "nb": 2, "stmts": S(dg.I(0), dg.mX90(3), dg.CNOT(3, 0), dg.Sdag(2), dg.CZ(2, 1), reset(3), measure(1, Bit(1)), dg.Tdag(1))},
     ]
     out.append({"nq": 3, "nb": 1, "stmts": S(dg.Z(1), dg.Y(2)) + [g.matrix_gate([0, 2], "swap")] + S(dg.Rz(0, Float(math.pi)), dg.mY90(0))})
+    # "rich": negative z rotations left alone, anonymous fusions that equal default gates, identities next to rotations
+    out.append({"nq": 3, "nb": 1, "stmts": S(dg.T(0), dg.T(0), dg.Rx(1, Float(math.pi / 4)), dg.Rx(1, Float(math.pi / 4)), dg.Y90(2), dg.X(2), dg.CNOT(0, 1),
+                                          dg.Sdag(0), dg.CZ(0, 2), dg.Tdag(2), dg.Rz(1, Float(-0.7)), dg.I(1), dg.CNOT(2, 1), dg.Rx(2, Float(1.2)), dg.Rz(2, Float(0.0)),
+                                          measure(1, Bit(0)), dg.Sdag(1), dg.Tdag(0), dg.CNOT(0, 2),
+                                          dg.T(0), dg.T(0), dg.Rx(1, Float(math.pi / 4)), dg.Rx(1, Float(math.pi / 4)), dg.Y90(2), dg.X(2))})
     return out
 
 def apply_pass(circ, p, state):
@@ -818,8 +894,10 @@ def check_C05(run: Run):
     L = run.n(2, 3)
     if run.quick():
         all2 = list(itertools.product(range(len(al)), repeat=2))
+        for sq in all2: seqs.append((seeds[-1], [al[j] for j in sq]))          # every pair on the rich seed
         rng.shuffle(all2)
-        for i, sq in enumerate(all2[:run.n(110, 0)]): seqs.append((seeds[i % len(seeds)], [al[j] for j in sq]))
+        for i, sq in enumerate(all2[:run.n(90, 0)]): seqs.append((seeds[i % len(seeds)], [al[j] for j in sq]))
+        for _ in range(12): seqs.append((seeds[-1], [("merge",), ("map", "cycle"), ("decompose", rng.choice(["ZYZ", "XYX"])), ("merge",)]))
     else:
         for sd in seeds:
             for sq in itertools.product(range(len(al)), repeat=2): seqs.append((sd, [al[j] for j in sq]))
